@@ -14,6 +14,7 @@ import (
 )
 
 func init() {
+	register("SA", 2, "an explicit SAVE / REWRITEAOF that reports success has started the snapshot / rewrite: the functions bound to HandlerFuncParams.TakeSnapshot and RewriteAOF return nil only after the call (or go statement) that reaches the engine", ruleSA)
 	register("RW", 1, "rewrite window: some lock held by RewriteLog from the state copy until the log truncation is also held by the dispatcher from the handler call until the AOF append — otherwise a write executed and logged between the copy and the truncation is acknowledged and then truncated away", ruleRW)
 	register("T7", 2, "no self-deadlock on the state-copy handshake: a command that synchronously triggers a state copy (REWRITEAOF) is not write-classified (the dispatcher sets the mutation flag for write commands and getState waits for it to clear)", ruleT7)
 	register("GM", 6, "size-function coverage: every concrete type that handlers store (the E8 encoder table, top level and inside hashes) has a case in KeyData.GetMem (directly or through the CompositeType interface)", ruleGM)
@@ -333,6 +334,90 @@ func ruleOA(w *world.World, r *report.RuleResult) {
 		}
 		if !found {
 			r.Fail(it.fn+"|open-flags:"+it.file, w.Pos(fn.Pos()), "the default "+it.file+" is no longer opened with os.OpenFile")
+		}
+	}
+}
+
+
+// ---- SA ----
+
+// ruleSA: the admin commands answer OK when the bound function returns nil. A nil return that is
+// not preceded on every path by the engine call means "SAVE said OK and nothing was saved".
+func ruleSA(w *world.World, r *report.RuleResult) {
+	type tgt struct {
+		field   string
+		engines []string
+		what    string
+	}
+	for _, t := range []tgt{
+		{"TakeSnapshot", []string{"internal/snapshot.(*Engine).TakeSnapshot", "internal/raft.(*Raft).TakeSnapshot"}, "snapshot"},
+		{"RewriteAOF", []string{"internal/aof.(*Engine).RewriteLog"}, "log rewrite"},
+	} {
+		fn := w.Binding().Field[t.field]
+		if fn == nil {
+			r.Fail("binding|"+t.field, "", "HandlerFuncParams."+t.field+" is not bound to a module function")
+			continue
+		}
+		name := world.FuncName(fn)
+		reaches := func(f *ssa.Function) bool {
+			if f == nil {
+				return false
+			}
+			for _, e := range t.engines {
+				if world.FuncName(f) == e || reachesFunc(w, f, e) {
+					return true
+				}
+			}
+			return false
+		}
+		const STARTED world.Facts = 1
+		gen := func(in ssa.Instruction) world.Facts {
+			c, ok := in.(ssa.CallInstruction)
+			if !ok {
+				return 0
+			}
+			if _, isDefer := in.(*ssa.Defer); isDefer {
+				return 0
+			}
+			var callees []*ssa.Function
+			if f := c.Common().StaticCallee(); f != nil {
+				callees = append(callees, f)
+			} else if mc, ok := c.Common().Value.(*ssa.MakeClosure); ok {
+				callees = append(callees, mc.Fn.(*ssa.Function))
+			}
+			for _, f := range callees {
+				if reaches(f) {
+					return STARTED
+				}
+			}
+			return 0
+		}
+		must := world.Must(fn, nil, gen, nil)
+		n := 0
+		for _, ret := range world.Returns(fn) {
+			rv := world.RetVals(ret)
+			if len(rv) != 1 {
+				continue
+			}
+			// `return engine.RewriteLog()`: the engine's verdict is the result
+			if c, ok := rv[0].(*ssa.Call); ok && gen(c) != 0 {
+				n++
+				r.OK(fmt.Sprintf("%s|success-implies-started#%d", name, n), w.InstrPos(ret), "returns the engine's own result")
+				continue
+			}
+			if !world.IsNilConst(rv[0]) {
+				continue
+			}
+			n++
+			key := fmt.Sprintf("%s|success-implies-started#%d", name, n)
+			if world.FactsAt(must, ret, gen, nil)&STARTED != 0 {
+				r.OK(key, w.InstrPos(ret), "success is reported only after the "+t.what+" was started")
+			} else {
+				r.Fail(key, w.InstrPos(ret), fmt.Sprintf("%s can return nil (the command replies OK) on a path that never starts the %s: the client is told the data was saved while the files on disk still describe an older dataset - whatever the skipped condition is based on (a change counter, a timestamp), changes it does not see (deletes, expiry changes, flushes) are lost on restart", name, t.what))
+			}
+		}
+		if n == 0 {
+			r.Fail(name+"|success-implies-started", w.Pos(fn.Pos()), name+" has no success return")
 		}
 	}
 }
